@@ -139,4 +139,8 @@ Section Sound.
     intros E. apply C04_sound_lzip_thm in E as (cs & Mk & _). inversion Mk; subst; [left; reflexivity|].
     right. eauto.
   Qed.
+
+  (* the one accepted input without a member: the empty input (known finding lzip-empty-input) *)
+  Theorem lz_decode_empty_known : lz_decode pdec lz_fixed [] = Ok ([], []).
+  Proof. reflexivity. Qed.
 End Sound.
